@@ -330,7 +330,7 @@ class QuantumState:
             graph_list = rc.stabilizer_to_graph(data_list)
             return MixedGraph(graph_list)
         else:
-            graph_list = rc.stabilizer_to_graph(rep.data)
+            graph_list = rc.stabilizer_to_graph(rep.data.to_stabilizer())
             return Graph(graph_list[0][1])
 
     def _graph_to_density(self, rep):
